@@ -850,7 +850,7 @@ Qed.
 Definition wit_rt : list (N * Z) := [(1%N, 1000000000); (2%N, 1500)].
 Definition wit_row : row :=
   {| r_id := 1%N; r_rowid := 4%N; r_room := Some 1%N; r_mdate := 0;
-     r_fields := [(0%N, 1); (1%N, 2); (2%N, 90); (3%N, 12)] |}.
+     r_fields := [(0%N, 1); (1%N, 2); (2%N, 90); (3%N, 12); (4%N, 100); (5%N, 109)] |}.
 Definition wit_db : db :=
   {| rows := [wit_row]; edges := [mk_edge 1%N 0%N 0%N 0; mk_edge 1%N 1%N 0%N 0]; db_floor := 3%N |}.
 Definition mut (room : option N) (date : Z) (a : list (N * Z)) (r : list refop) : mutation :=
@@ -869,13 +869,13 @@ Ltac two_orders H :=
 (* m1 assigns field 0, m2 assigns field 1 of one row: both are acknowledged, the final row has
    m2's field 1 and the OLD field 0; no serial order gives that state *)
 Lemma refuted_fields :
-  let c := CSched wit_rt wit_db 4%N wit_fields wit_sigma false in
+  let c := CSched wit_rt wit_db 6%N wit_fields wit_sigma false in
   known_C16 c = [1] /\ wf_case c = true /\ complete 2 wit_sigma = true /\
   (exists s, run_sched wit_rt wit_db wit_fields wit_sigma = Some s /\ s_acked s = [0; 1]%nat /\
      (exists r, find_row 1%N (s_db s) = Some r /\
                 get_field 0%N (r_fields r) = Some 1 /\ get_field 1%N (r_fields r) = Some 22) /\
      (forall pi, Permutation [0; 1]%nat pi ->
-                 obs_db 4%N (fold_left (spec_apply_i wit_fields) pi wit_db) <> obs_db 4%N (s_db s))) /\
+                 obs_db 6%N (fold_left (spec_apply_i wit_fields) pi wit_db) <> obs_db 6%N (s_db s))) /\
   spec_C16 c (run_C16 c) = false.
 Proof.
   cbv zeta. split; [vm_compute; reflexivity|]. split; [vm_compute; reflexivity|]. split; [vm_compute; reflexivity|].
@@ -888,7 +888,7 @@ Qed.
 (* two replacements of a single-valued reference (owner:{id:t1} and owner:{id:t2}): both
    acknowledged, the row ends with TWO owners; every serial order leaves one *)
 Lemma refuted_reference :
-  let c := CSched wit_rt wit_db 4%N wit_refs wit_sigma false in
+  let c := CSched wit_rt wit_db 6%N wit_refs wit_sigma false in
   known_C16 c = [1] /\ wf_case c = true /\
   (exists s, run_sched wit_rt wit_db wit_refs wit_sigma = Some s /\ s_acked s = [0; 1]%nat /\
      length (get_edges 1%N (edges_of 1%N (s_db s))) = 2%nat /\
@@ -904,7 +904,7 @@ Qed.
 (* a move to room 2 (with an assignment) racing a field update: both acknowledged, the row is
    still in room 1 and the moved mutation's assignment is gone *)
 Lemma refuted_room_move :
-  let c := CSched wit_rt wit_db 4%N wit_room wit_sigma false in
+  let c := CSched wit_rt wit_db 6%N wit_room wit_sigma false in
   known_C16 c = [1] /\ wf_case c = true /\
   (exists s, run_sched wit_rt wit_db wit_room wit_sigma = Some s /\ s_acked s = [0; 1]%nat /\
      (exists r, find_row 1%N (s_db s) = Some r /\ r_room r = Some 1%N /\ get_field 0%N (r_fields r) = Some 1) /\
@@ -926,10 +926,10 @@ Definition wit_takeover : list mutation :=
   [mut None 1000 [(0%N, 11)] [RAdd 0%N [1%N]];
    {| m_kind := KDelete; m_row := 1%N; m_date := 2000; m_room := None; m_assign := []; m_refs := [] |};
    {| m_kind := KCreate; m_row := 11%N; m_date := 3000; m_room := Some 1%N;
-      m_assign := [(0%N, 5); (1%N, 70); (2%N, 90); (3%N, 30)]; m_refs := [RSet 1%N 2%N] |}].
+      m_assign := [(0%N, 5); (1%N, 70); (2%N, 90); (3%N, 30); (5%N, 109)]; m_refs := [RSet 1%N 2%N] |}].
 Definition takeover_sigma : list ev := [R 0; R 1; V 1; W 1; R 2; V 2; W 2; V 0; W 0]%nat.
 Lemma refuted_rowid_takeover :
-  let c := CSched wit_rt wit_db 4%N wit_takeover takeover_sigma false in
+  let c := CSched wit_rt wit_db 6%N wit_takeover takeover_sigma false in
   known_C16 c = [1] /\ wf_case c = true /\
   (exists s, run_sched wit_rt wit_db wit_takeover takeover_sigma = Some s /\ s_acked s = [1; 2; 0]%nat /\
      find_row 1%N (s_db s) <> None /\ find_row 11%N (s_db s) = None /\
@@ -958,7 +958,7 @@ Definition nv_ms : list mutation :=
    {| m_kind := KCreate; m_row := 11%N; m_date := 4000; m_room := Some 1%N; m_assign := [(0%N, 5)]; m_refs := [RAdd 0%N [1%N]] |}].
 Definition nv_sigma : list ev := [R 0; R 1; V 1; R 3; V 0; W 1; W 0; R 2; V 3; V 2; W 3; W 2]%nat.
 Lemma nonvacuous :
-  let c := CSched wit_rt nv_db 4%N nv_ms nv_sigma false in
+  let c := CSched wit_rt nv_db 6%N nv_ms nv_sigma false in
   known_C16 c = [] /\ wf_case c = true /\
   (exists s, run_sched wit_rt nv_db nv_ms nv_sigma = Some s /\ s_acked s = [1; 0; 3]%nat /\ s_refused s = [2]%nat) /\
   windows_ok nv_ms [] [R 0; R 2; V 0; W 0; V 2; W 2]%nat = false.
@@ -990,7 +990,7 @@ Proof. intros d m mo p Hn Hr Hne. eapply read_write_frame; eauto. Qed.
 Definition wit_room_only : list mutation := [mut (Some 2%N) 1000 [] []; mut None 2000 [(1%N, 22)] []].
 Definition seq_sigma : list ev := [R 0; V 0; W 0; R 1; V 1; W 1]%nat.
 Lemma room_only_moves :
-  let c := CSched wit_rt wit_db 4%N wit_room_only seq_sigma false in
+  let c := CSched wit_rt wit_db 6%N wit_room_only seq_sigma false in
   known_C16 c = [] /\ wf_case c = true /\
   (exists s, run_sched wit_rt wit_db wit_room_only [R 0; V 0; W 0]%nat = Some s /\ s_acked s = [0]%nat /\
      exists r, find_row 1%N (s_db s) = Some r /\ r_room r = Some 2%N /\ r_mdate r = 1000) /\
